@@ -888,7 +888,9 @@ func (c *Cluster) AwaitRunning(afterGen int64, timeout time.Duration) bool {
 	}, timeout)
 }
 
-// TriggerCheckpoint ticks the job's checkpoint ticker once.
+// TriggerCheckpoint ticks the job's checkpoint ticker once. The tick runs on its own goroutine; the call returns when
+// the tick returned, or -- while acknowledgements are held -- as soon as one is parked (a runner may acknowledge
+// inside the StartCheckpoint call, which then does not return before the release).
 func (c *Cluster) TriggerCheckpoint() error {
 	if c.curJob() == nil {
 		return errNoJob
@@ -896,7 +898,34 @@ func (c *Cluster) TriggerCheckpoint() error {
 	if c.jobClock.registered("checkpointing") == 0 {
 		return fmt.Errorf("clusterlib: job is not running (no checkpoint ticker)")
 	}
-	return c.guard("checkpoint tick", func() error { c.jobClock.TickEvery("checkpointing"); return nil })
+	jc := c.jobClock
+	done := make(chan error, 1)
+	go func() {
+		done <- c.guard("checkpoint tick", func() error { jc.TickEvery("checkpointing"); return nil })
+		c.log.add(func(*Log) {})
+	}()
+	var err error
+	finished := false
+	c.await(func(*Log) bool {
+		select {
+		case err = <-done:
+			finished = true
+			return true
+		default:
+		}
+		c.mu.Lock()
+		defer c.mu.Unlock()
+		return c.hold && len(c.parked) > 0
+	}, 5*time.Second, false)
+	if !finished && err == nil {
+		c.mu.Lock()
+		n := len(c.parked)
+		c.mu.Unlock()
+		if n == 0 {
+			return fmt.Errorf("clusterlib: checkpoint tick did not return")
+		}
+	}
+	return err
 }
 
 func (c *Cluster) HoldAcks(on bool) {
